@@ -14,6 +14,7 @@ func init() { families["C10"] = runC10 }
 type c10Call struct {
 	Units [][]int `json:"units"`
 	Scs   []int   `json:"scs"`
+	Mtu   int     `json:"mtu"` // 0: the case's MTU
 }
 
 type c10Case struct {
@@ -89,12 +90,16 @@ func runC10(raw json.RawMessage, w *Writer) {
 	for k, call := range c.Calls {
 		input := pristine[bounds[k]:bounds[k+1]]
 		var frags [][]byte
-		r, _ := guard(func() { frags = p.Payload(uint16(c.Mtu), stream[bounds[k]:bounds[k+1]]) })
+		mtu := c.Mtu
+		if call.Mtu > 0 {
+			mtu = call.Mtu
+		}
+		r, _ := guard(func() { frags = p.Payload(uint16(mtu), stream[bounds[k]:bounds[k+1]]) })
 		intact := bytes.Equal(stream, pristine) // the call wrote neither into its window nor into what lies behind it
 		deps := []Ev{}
 		for _, f := range frags {
 			deps = append(deps, rx.feed(f))
 		}
-		w.Emit(Ev{"ev": "payload", "k": k, "units": call.Units, "scs": call.Scs, "input": ints(input), "stream_intact": intact, "res": r, "frags": intss(frags), "deps": deps})
+		w.Emit(Ev{"ev": "payload", "k": k, "units": call.Units, "scs": call.Scs, "input": ints(input), "mtu": mtu, "stream_intact": intact, "res": r, "frags": intss(frags), "deps": deps})
 	}
 }
